@@ -324,5 +324,8 @@ func rulesGlob() string {
 	if d := os.Getenv("GCSIM_RULES"); d != "" {
 		return d
 	}
+	if v := os.Getenv("GCSIM_VERIF"); v != "" {
+		return v + "/sim/rules/probe_*.go"
+	}
 	return "/verif/sim/rules/probe_*.go"
 }
